@@ -1,6 +1,296 @@
-/-! placeholder (replaced by the C10 model) -/
+import SoxrModel.Chan.Generated
+/-!
+# `struct soxr`, field by field, and the functions that build, clear and destroy it (property C10)
+
+The record `Soxr` has one field per member of `struct soxr` in `/repo/src/soxr.c` — `fields_match` compares the list with
+the one `harness/chan/gen.c` reads out of the source text on every run (`Generated.structFields`), `clear_preserved_match`
+does the same for the members `soxr_clear` copies back from `tmp`, `set_input_fn_match` / `create_assigns_match` /
+`initialise_assigns_match` for the other functions: a member added to the struct, or dropped from / added to the copies in
+`soxr_clear`, changes `Generated.lean` and these `decide` proofs fail.
+
+Opaque values (specs, callbacks, the control block, `double`s) are `Nat` tokens with `0` = all-zero bytes (NULL / 0.0),
+because `soxr_create` callocs and `soxr_delete0` / `soxr_clear` `memset` the struct.  Engine creation
+(`resampler_create` through the control block) is a function of exactly what `initialise` passes:
+`(control_block, io_ratio, q_spec, runtime_spec, io_spec.scale)`; allocation does not fail here (C20 treats that).
+
+`Dyn p p'` is the footprint of every other API call (`soxr_process`, `soxr_output`, `soxr_set_error`, …): they may change
+the engines' contents, `channel_ptrs`' contents, `error`, `clips`, `seed`, `flushing` and nothing else.
+-/
 namespace Soxr.Chan.Clear
+
+/-- RESET_ON_CLEAR, as compiled -/
+def resetBit : Nat := 2147483648
+
+structure QSpec where
+  flags : Nat
+  rest : Nat
+  deriving DecidableEq, Repr
+
+structure IoSpec where
+  types : Nat
+  scale : Nat
+  flags : Nat
+  deriving DecidableEq, Repr
+
+/-- `struct soxr` -/
+structure Soxr (σ : Type) where
+  num_channels : Nat
+  io_ratio : Nat
+  error : Nat
+  q_spec : QSpec
+  io_spec : IoSpec
+  runtime_spec : Nat
+  input_fn_state : Nat
+  input_fn : Nat
+  max_ilen : Nat
+  shared : Bool                    -- owned block allocated?
+  resamplers : Option (List σ)     -- owned array and the per-channel engines
+  control_block : Nat
+  deinterleave : Nat
+  interleave : Nat
+  channel_ptrs : Bool              -- owned array allocated? (contents are scratch, written before read in every call)
+  clips : Nat
+  seed : Nat
+  flushing : Nat
+
+def fieldNames : List String :=
+  ["num_channels", "io_ratio", "error", "q_spec", "io_spec", "runtime_spec", "input_fn_state", "input_fn", "max_ilen",
+   "shared", "resamplers", "control_block", "deinterleave", "interleave", "channel_ptrs", "clips", "seed", "flushing"]
+
+/-- what the model's `clear` copies back from `tmp` (sorted) -/
+def clearKeeps : List String :=
+  ["control_block", "deinterleave", "input_fn", "input_fn_state", "interleave", "io_spec", "max_ilen", "num_channels",
+   "q_spec", "runtime_spec"]
+
+theorem fields_match : Generated.structFields = fieldNames := by decide
+theorem clear_preserved_match : Generated.clearPreserved = clearKeeps := by decide
+theorem clear_shape_match :
+    Generated.clearMemset = true ∧ Generated.clearCallsDelete0 = true ∧ Generated.clearResetTest = true ∧
+    Generated.delete0Memset = true ∧ Generated.createCallocs = true ∧ Generated.fatalWipesThenSetsError = true ∧
+    Generated.resetOnClear = resetBit := by decide
+theorem set_input_fn_match : Generated.setInputFnAssigns = ["input_fn", "input_fn_state", "max_ilen"] := by decide
+theorem create_assigns_match : Generated.createAssigns =
+    ["control_block", "deinterleave", "interleave", "io_ratio", "io_spec", "num_channels", "q_spec", "runtime_spec", "seed"] := by decide
+theorem initialise_assigns_match : Generated.initialiseAssigns = ["channel_ptrs", "resamplers", "shared"] := by decide
+theorem struct_covered : Generated.coveredBytes ≤ Generated.sizeofSoxr ∧ Generated.sizeofSoxr - Generated.coveredBytes < 16 := by decide
+
+variable {σ : Type}
+
+/-- all-zero bytes (`calloc`, `memset(p, 0, sizeof(*p))`) -/
+def zero : Soxr σ :=
+  { num_channels := 0, io_ratio := 0, error := 0, q_spec := ⟨0, 0⟩, io_spec := ⟨0, 0, 0⟩, runtime_spec := 0,
+    input_fn_state := 0, input_fn := 0, max_ilen := 0, shared := false, resamplers := none, control_block := 0,
+    deinterleave := 0, interleave := 0, channel_ptrs := false, clips := 0, seed := 0, flushing := 0 }
+
+/-- the engine side: what `resampler_create` answers for the arguments `initialise` passes; which control blocks have a
+    `set_io_ratio` entry; how an engine reacts to it; when a constant-rate engine accepts a "new" ratio -/
+structure Eng (σ : Type) where
+  create : (cb ratio : Nat) → QSpec → (rt scale : Nat) → Except Nat σ
+  hasSetRatio : Nat → Bool
+  setRatio : σ → Nat → Nat → σ
+  same : Nat → Nat → Bool
+
+def sizeMax : Nat := 2 ^ 64 - 1
+def errNoChannels : Nat := 101     -- "must set # channels before O/I ratio"
+def errRange : Nat := 102          -- "I/O ratio out-of-range"
+def errVarying : Nat := 103        -- "varying O/I ratio is not supported with this quality level"
+def errChannels : Nat := 104       -- "# of channels can't be changed" / "invalid # of channels"
+
+/-- `soxr_delete0` (frees everything it owns, then `memset`) -/
+def delete0 (_p : Soxr σ) : Soxr σ := zero
+
+/-- `fatal_error` -/
+def fatal (p : Soxr σ) (e : Nat) : Soxr σ := { delete0 p with error := e }
+
+/-- `initialise` (every channel's engine is created from the same arguments, so they all succeed or the first fails;
+    an engine error `e` is the non-zero code `e + 1`) -/
+def initialise (W : Eng σ) (p : Soxr σ) : Soxr σ × Nat :=
+  match W.create p.control_block p.io_ratio p.q_spec p.runtime_spec p.io_spec.scale with
+  | .error e => if p.num_channels = 0 then ({ p with channel_ptrs := true, shared := true, resamplers := some [] }, 0)
+                else (fatal p (e + 1), e + 1)
+  | .ok e0 => ({ p with channel_ptrs := true, shared := true, resamplers := some (List.replicate p.num_channels e0) }, 0)
+
+/-- `soxr_set_io_ratio`; ratio token 0 = "not > 0" -/
+def setIoRatio (W : Eng σ) (p : Soxr σ) (r slew : Nat) : Soxr σ × Nat :=
+  if p.error ≠ 0 then (p, p.error)
+  else if p.num_channels = 0 then (p, errNoChannels)
+  else if r = 0 then (p, errRange)
+  else if p.channel_ptrs = false then initialise W { p with io_ratio := r }
+  else if W.hasSetRatio p.control_block then
+    ({ p with resamplers := p.resamplers.map (fun l => l.map (fun e => W.setRatio e r slew)) }, 0)
+  else (p, if W.same p.io_ratio r then 0 else errVarying)
+
+/-- `soxr_set_num_channels` -/
+def setNumChannels (W : Eng σ) (p : Soxr σ) (n : Nat) : Soxr σ × Nat :=
+  if n = p.num_channels then (p, p.error)
+  else if n = 0 then (p, errChannels)
+  else if p.resamplers.isSome then (p, errChannels)
+  else setIoRatio W { p with num_channels := n } p.io_ratio 0
+
+/-- the configuration `soxr_create` stores (after its own adjustments of the caller's specs, which are C09's subject) -/
+structure Config where
+  num_channels : Nat
+  io_ratio : Nat
+  q_spec : QSpec
+  io_spec : IoSpec
+  runtime_spec : Nat
+  control_block : Nat
+  deinterleave : Nat
+  interleave : Nat
+  deriving DecidableEq, Repr
+
+def configOf (p : Soxr σ) : Config :=
+  { num_channels := p.num_channels, io_ratio := p.io_ratio, q_spec := p.q_spec, io_spec := p.io_spec,
+    runtime_spec := p.runtime_spec, control_block := p.control_block, deinterleave := p.deinterleave, interleave := p.interleave }
+
+/-- `soxr_create` after its argument checks: calloc, store the configuration and the seed, `soxr_set_io_ratio` if the
+    channel count and the ratio are known.  On error the object is deleted and NULL returned (`none`). -/
+def create (W : Eng σ) (c : Config) (seed : Nat) : Option (Soxr σ) × Nat :=
+  let p : Soxr σ :=
+    { num_channels := c.num_channels, io_ratio := c.io_ratio, error := 0, q_spec := c.q_spec, io_spec := c.io_spec,
+      runtime_spec := c.runtime_spec, input_fn_state := 0, input_fn := 0, max_ilen := 0, shared := false, resamplers := none,
+      control_block := c.control_block, deinterleave := c.deinterleave, interleave := c.interleave, channel_ptrs := false,
+      clips := 0, seed := seed, flushing := 0 }
+  if c.num_channels ≠ 0 ∧ c.io_ratio ≠ 0 then
+    let r := setIoRatio W p c.io_ratio 0
+    if r.2 ≠ 0 then (none, r.2) else (some r.1, 0)
+  else (some p, 0)
+
+/-- `soxr_set_input_fn` -/
+def setInputFn (p : Soxr σ) (fn state maxIlen : Nat) : Soxr σ :=
+  { p with input_fn_state := state, input_fn := fn, max_ilen := if maxIlen = 0 then sizeMax else maxIlen }
+
+def hasReset (q : QSpec) : Bool := (q.flags / resetBit) % 2 = 1
+
+/-- `soxr_clear` -/
+def clear (W : Eng σ) (p : Soxr σ) : Soxr σ × Nat :=
+  let tmp := p
+  let p0 : Soxr σ :=
+    { num_channels := tmp.num_channels, io_ratio := 0, error := 0, q_spec := tmp.q_spec, io_spec := tmp.io_spec,
+      runtime_spec := tmp.runtime_spec, input_fn_state := tmp.input_fn_state, input_fn := tmp.input_fn, max_ilen := tmp.max_ilen,
+      shared := false, resamplers := none, control_block := tmp.control_block, deinterleave := tmp.deinterleave,
+      interleave := tmp.interleave, channel_ptrs := false, clips := 0, seed := 0, flushing := 0 }
+  if hasReset p0.q_spec then setIoRatio W p0 tmp.io_ratio 0 else (p0, 0)
+
+/-- footprint of every other API call on the object (process / output / set_error …) -/
+structure Dyn (p p' : Soxr σ) : Prop where
+  cfg : configOf p' = configOf p
+  fn : p'.input_fn = p.input_fn ∧ p'.input_fn_state = p.input_fn_state ∧ p'.max_ilen = p.max_ilen
+  shared : p'.shared = p.shared
+  ptrs : p'.channel_ptrs = p.channel_ptrs
+  res : p'.resamplers.isSome = p.resamplers.isSome
+
+/-- API operations that change more than `Dyn` allows -/
+inductive HOp
+  | setInputFn (fn state maxIlen : Nat)
+  | setIoRatio (r slew : Nat)
+  | setNumChannels (n : Nat)
+  | clear
+
+def applyOp (W : Eng σ) (p : Soxr σ) : HOp → Soxr σ
+  | .setInputFn f s m => setInputFn p f s m
+  | .setIoRatio r l => (setIoRatio W p r l).1
+  | .setNumChannels n => (setNumChannels W p n).1
+  | .clear => (clear W p).1
+
+/-- every history of one object: any interleaving of the operations above with arbitrary other calls -/
+inductive Reach (W : Eng σ) : Soxr σ → Soxr σ → Prop
+  | refl (p : Soxr σ) : Reach W p p
+  | op {p q : Soxr σ} (o : HOp) : Reach W p q → Reach W p (applyOp W q o)
+  | dyn {p q q' : Soxr σ} : Reach W p q → Dyn q q' → Reach W p q'
+
+/-- the object was not wiped by a fatal error (engine creation failing inside `soxr_clear` / `soxr_set_io_ratio`) -/
+def Live (p : Soxr σ) : Prop := p.control_block ≠ 0
+
+/-! ### process-wide tables -/
+
+/-- FFT cache (`fft4g_cache.h`): one pair of tables, grown to the largest length asked for so far, never shrunk.
+    VR tables (`vr32.c` `fade_coefs`, `poly_fir_coefs_u/d`): written once, by the first VR instance, from ITS `mult`. -/
+structure Globals where
+  fftLen : Nat
+  vrMult : Option Nat
+  deriving DecidableEq, Repr
+
+def Globals.init : Globals := { fftLen := 0, vrMult := none }
+
+/-- `UPDATE_FFT_CACHE(len)` -/
+def useFft (g : Globals) (len : Nat) : Globals := { g with fftLen := max g.fftLen len }
+
+/-- `vr_init(…, mult)`: `if (fade_coefs[0]==0) { … prepare_coefs(…, mult) … }` -/
+def useVr (g : Globals) (mult : Nat) : Globals := { g with vrMult := some (g.vrMult.getD mult) }
+
+/-- what an instance does to the process-wide state when it is created / used: a list of FFT lengths and, for the VR
+    engine, its `mult` (= io_spec.scale after soxr_create's full-scale adjustment) -/
+structure Use where
+  fft : List Nat
+  vr : Option Nat
+  deriving DecidableEq, Repr
+
+def applyUse (g : Globals) (u : Use) : Globals :=
+  let g1 := u.fft.foldl useFft g
+  match u.vr with
+  | some m => useVr g1 m
+  | none => g1
+
+/-- the gain a VR instance with `mult = m` really gets: that of the tables as they are after its `vr_init` -/
+def vrEffective (g : Globals) (m : Nat) : Nat := ((useVr g m).vrMult).getD m
+
+/-- what a length-`n` transform reads: entry `i` of tables currently built for length `N` (`read N n i`) -/
+structure FftTables (τ : Type) where
+  read : (N n i : Nat) → τ
+  used : Nat → Nat
+  /-- tables built for a larger length agree with those built for `n` on what a length-`n` transform reads
+      (ASSUMED of fft4g.c makewt/makect; exercised by the falsifier) -/
+  prefix_ok : ∀ N n i, n ≤ N → i < used n → read N n i = read n n i
+
+def fftView {τ : Type} (T : FftTables τ) (g : Globals) (n : Nat) : List τ :=
+  (List.range (T.used n)).map (fun i => T.read (useFft g n).fftLen n i)
+
+/-! ### driver (C10 lines of `soxr_chan`): the struct-level model on the histories `harness/chan/history.c` runs -/
+
 structure DSt where
-  dummy : Nat := 0
-def driverLine (c : DSt) (_t : List String) : DSt × String := (c, "E c10-not-yet")
+  objs : List (String × Soxr Unit) := []
+
+/-- the executable engine side: creation succeeds, VR control blocks (token 5) take ratio changes -/
+def dEng : Eng Unit :=
+  { create := fun _ _ _ _ _ => .ok (), hasSetRatio := fun cb => cb == 5, setRatio := fun e _ _ => e, same := fun a b => a == b }
+
+def nat (s : String) : Nat := s.toNat?.getD 0
+
+def showObj (name : String) (p : Soxr Unit) : String :=
+  s!"F {name} num_channels={p.num_channels} io_ratio_set={if p.io_ratio ≠ 0 then 1 else 0} error={if p.error ≠ 0 then 1 else 0} input_fn={if p.input_fn ≠ 0 then 1 else 0} input_fn_state={if p.input_fn_state ≠ 0 then 1 else 0} max_ilen={p.max_ilen} shared={if p.shared then 1 else 0} resamplers={if p.resamplers.isSome then 1 else 0} control_block={if p.control_block ≠ 0 then 1 else 0} deinterleave={if p.deinterleave ≠ 0 then 1 else 0} interleave={if p.interleave ≠ 0 then 1 else 0} channel_ptrs={if p.channel_ptrs then 1 else 0} clips={p.clips} seed0={if p.seed = 0 then 1 else 0} flushing={p.flushing} reset_on_clear={if hasReset p.q_spec then 1 else 0}"
+
+def setObj (d : DSt) (name : String) (p : Soxr Unit) : DSt :=
+  { objs := (name, p) :: d.objs.filter (fun x => x.1 ≠ name) }
+
+def getObj (d : DSt) (name : String) : Option (Soxr Unit) := (d.objs.find? (fun x => x.1 = name)).map (·.2)
+
+/-- `c10 new X <ch> <ratioTok> <reset> <vr>` | `c10 X setfn <m>` | `c10 X clear` | `c10 X ratio <tok>` | `c10 X dyn` | `c10 X fields` | `c10 del X` -/
+def driverLine (d : DSt) (t : List String) : DSt × String :=
+  match t with
+  | ["new", x, ch, ratio, reset, vr] =>
+    let c : Config := { num_channels := nat ch, io_ratio := nat ratio, q_spec := ⟨if nat reset ≠ 0 then resetBit else 0, 1⟩,
+                        io_spec := ⟨0, 1, 0⟩, runtime_spec := 1, control_block := if nat vr ≠ 0 then 5 else 4,
+                        deinterleave := 1, interleave := 1 }
+    match (create dEng c 12345).1 with
+    | some p => (setObj d x p, showObj x p)
+    | none => (d, s!"F {x} none")
+  | ["del", x] => ({ objs := d.objs.filter (fun y => y.1 ≠ x) }, "ok")
+  | [x, "fields"] => match getObj d x with
+    | some p => (d, showObj x p)
+    | none => (d, s!"F {x} none")
+  | [x, "setfn", m] => match getObj d x with
+    | some p => let p' := setInputFn p 7 9 (nat m); (setObj d x p', showObj x p')
+    | none => (d, s!"F {x} none")
+  | [x, "clear"] => match getObj d x with
+    | some p => let p' := (clear dEng p).1; (setObj d x p', showObj x p')
+    | none => (d, s!"F {x} none")
+  | [x, "ratio", r] => match getObj d x with
+    | some p => let p' := (setIoRatio dEng p (nat r) 0).1; (setObj d x p', showObj x p')
+    | none => (d, s!"F {x} none")
+  | [x, "dyn", err, clips, fl] => match getObj d x with   -- the footprint of process/output calls, as observed on the real object
+    | some p => let p' := { p with error := nat err, clips := nat clips, flushing := nat fl, seed := 1 }; (setObj d x p', showObj x p')
+    | none => (d, s!"F {x} none")
+  | _ => (d, "E bad-c10-line")
+
 end Soxr.Chan.Clear
